@@ -3,11 +3,21 @@
 use crate::seam::{self, PanicInfo};
 use chrono::Datelike;
 use smartcalc::{NumberType, Session, SmartCalc, SmartCalcAstType, TokenType};
+use serde::{Deserialize, Serialize};
 use std::fmt::Write;
 
-#[derive(Clone, Debug, PartialEq)]
+#[derive(Clone, Copy, Debug, PartialEq, Eq, Serialize, Deserialize)]
+pub enum Base {
+    Dec,
+    Oct,
+    Hex,
+    Bin,
+    Raw,
+}
+
+#[derive(Clone, Debug, PartialEq, Serialize, Deserialize)]
 pub enum Val {
-    Number(f64, &'static str),
+    Number(f64, Base),
     Percent(f64),
     Money(f64, String),
     /// whole seconds (+ sub-second nanos, always 0 in practice)
@@ -42,13 +52,13 @@ pub enum Run {
     Panic(PanicInfo),
 }
 
-pub fn base_name(t: NumberType) -> &'static str {
+pub fn base_name(t: NumberType) -> Base {
     match t {
-        NumberType::Decimal => "dec",
-        NumberType::Octal => "oct",
-        NumberType::Hexadecimal => "hex",
-        NumberType::Binary => "bin",
-        NumberType::Raw => "raw",
+        NumberType::Decimal => Base::Dec,
+        NumberType::Octal => Base::Oct,
+        NumberType::Hexadecimal => Base::Hex,
+        NumberType::Binary => Base::Bin,
+        NumberType::Raw => Base::Raw,
     }
 }
 
